@@ -82,6 +82,10 @@ var guardSpecs = []guardSpec{
 	{"algUnknownGuard", "pkg/webhook/v1beta1/experiment/validator/validator.go", "validateAlgorithm", `field.Invalid(algorithmPath.Child("algorithmName")`, algAtoms, algParams, false},
 	{"esNameEmptyGuard", "pkg/webhook/v1beta1/experiment/validator/validator.go", "validateEarlyStopping", `field.Required(earlyStoppingPath.Child("algorithmName")`, algAtoms, algParams, false},
 	{"esUnknownGuard", "pkg/webhook/v1beta1/experiment/validator/validator.go", "validateEarlyStopping", `field.Invalid(earlyStoppingPath.Child("algorithmName")`, algAtoms, algParams, false},
+	{"setMinGuard", "pkg/controller.v1beta1/trial/trial_controller_util.go", "getMetrics", "stmt:metric.Min = strValue", gmAtoms, gmParams, true},
+	{"setMaxGuard", "pkg/controller.v1beta1/trial/trial_controller_util.go", "getMetrics", "stmt:metric.Max = strValue", gmAtoms, gmParams, true},
+	{"setLatestGuard", "pkg/controller.v1beta1/trial/trial_controller_util.go", "getMetrics", "stmt:metric.Latest = strValue", gmAtoms, gmParams, true},
+	{"tsErrorGuard", "pkg/controller.v1beta1/trial/trial_controller_util.go", "getMetrics", `fmt.Errorf("failed to parse timestamps`, gmAtoms, gmParams, true},
 	{"addFinalizerGuard", "pkg/controller.v1beta1/trial/trial_controller_util.go", "needUpdateFinalizers", "append(pendingFinalizers, cleanMetricsFinalizer)", finAtoms, finParams, false},
 	{"removeFinalizerGuard", "pkg/controller.v1beta1/trial/trial_controller_util.go", "needUpdateFinalizers", "stmt:finalizers := []string{}", finAtoms, finParams, false},
 	{"dbCleanupGuard", "pkg/controller.v1beta1/trial/trial_controller_util.go", "updateFinalizers", "r.DeleteTrialObservationLog(instance)", finAtoms, finParams, false},
@@ -192,6 +196,13 @@ var algAtoms = map[string]string{
 	"err != nil": "lookupFailed",
 }
 var algParams = []string{"specNil", "nameEmpty", "lookupFailed"}
+
+var gmAtoms = map[string]string{
+	"ok": "tracked", "err == nil": "floatOk", "err != nil": "tsBad", "metric.Min == consts.UnavailableMetricValue": "minUnset",
+	"floatValue < minMetric": "below", "floatValue > maxMetric": "above", "timestamp == nil": "tsNil",
+	"timestamp.After(currentTime)": "after",
+}
+var gmParams = []string{"tracked", "floatOk", "tsBad", "minUnset", "below", "above", "tsNil", "after"}
 
 var finAtoms = map[string]string{
 	"trial.ObjectMeta.DeletionTimestamp.IsZero()": "(!deleting)", "instance.ObjectMeta.DeletionTimestamp.IsZero()": "(!deleting)",
